@@ -319,6 +319,28 @@ def r2_dedup(prog, rep: Report, sf: SortedFacts):
         d = _derives_via_dedup(n.value, flow, param)
         results.append((d is True, f"key storage assigned from `{src(n.value)}`"
                         + (" through dict()" if d else ": no de-duplicating (last-wins) step between the pairs and the storage"), n))
+    # keys appended under an adjacent-inequality filter over a (stable) sorted order: the earliest of equal keys comes first,
+    # so "later pairs win" needs the value of a repeated key to be overwritten
+    vs = sf.value_storage(c)
+    for n in walk_own(f.node):
+        if isinstance(n, ast.Call) and isinstance(n.func, ast.Attribute) and n.func.attr == "append" \
+                and dotted(n.func.value) == (f.self_name, ks):
+            guard = _enclosing_if(n)
+            loop = _enclosing_loop(n)
+            if guard is None or loop is None:
+                results.append((False, f"`{src(n)}` appends initial keys without a de-duplicating test", n))
+                continue
+            filt = any(isinstance(x, ast.Compare) and isinstance(x.ops[0], ast.NotEq) and "[-1]" in src(x) for x in ast.walk(guard.test))
+            overwrites = any(isinstance(x, ast.Assign) and isinstance(x.targets[0], ast.Subscript)
+                             and dotted(x.targets[0].value) == (f.self_name, vs) and const_value(x.targets[0].slice) == -1
+                             for st_ in guard.orelse for x in ast.walk(st_))
+            if filt and not overwrites:
+                results.append((False, f"repeated initial keys are skipped by `{src(guard.test)}` without storing the later value: "
+                                       f"after a stable sort the earliest pair of a key comes first, so earlier pairs win", n))
+            elif filt:
+                results.append((True, "adjacent-inequality filter that overwrites the value of a repeated key (last wins)", n))
+            else:
+                results.append((False, f"`{src(n)}` appends initial keys under `{src(guard.test)}`, which is not a de-duplicating test", n))
     if not results:
         rep.unrec("C09.R2", f, "map-dedup", "no write of initial keys into the storage found")
     else:
@@ -467,6 +489,16 @@ def r3_unorderable(prog, rep: Report, sf: SortedFacts):
                 rep.unrec("C09.R3", where, f"probe:{name}", "the entry point never reaches the bisect comparison site")
                 continue
             escapes = [n for (_, n) in ex.exc if n == "TypeError"]
+            if not escapes and name in ("get", "pop", "__contains__"):
+                # with a default (get / pop) or for `in`, an unorderable probe must come back normally
+                finals_no = [s_ for s_ in (ex.normal | ex.ret) if s_[0] == "no"]
+                if not finals_no:
+                    rep.viol("C09.R3", where, f"probe:{name}",
+                             f"an unorderable probe can leave {c.name}.{name} only through an exception: the absent key is not "
+                             f"reported through the default / False",
+                             scenario=f"{c.name}({{1: 'a'}}).{name}(None, 'dflt') raises KeyError instead of returning 'dflt' like dict"
+                             if name != "__contains__" else f"`None in {c.name}(...)` raises instead of answering False")
+                    continue
             rep.check("C09.R3", where, f"probe:{name}", not escapes,
                       f"TypeError of the comparison is handled on the call chain ({client.sites} site(s) reached)",
                       f"a TypeError raised by the comparison escapes {c.name}.{name}",
